@@ -154,6 +154,9 @@ func seedByName(name string) *GenomeSpec {
 		return disconnectedSeed()
 	case "evolved":
 		return evolvedSeed()
+	case "modular":
+		// a start genome with a module whose gene carries the number right after the last connection gene
+		return modularSeed(true)
 	case "traits132":
 		// trait ids that are not an ascending run (as in the library's own test genome), nodes on non-first traits
 		g := evolvedSeed()
@@ -263,6 +266,21 @@ func (l *InnovationLedger) seedWith(gs []*genetics.Genome) string {
 			l.innov[gn.InnovationNum] = k
 			if gn.InnovationNum > l.hwInnov {
 				l.hwInnov = gn.InnovationNum
+			}
+		}
+		// module genes hold an innovation number and a node id too
+		for _, cg := range g.ControlGenes {
+			k := linkKey{-1, cg.ControlNode.Id, false}
+			if o, ok := l.innov[cg.InnovationNum]; ok && o != k {
+				return fmt.Sprintf("innovation %d denotes a module gene and %v in the initial population", cg.InnovationNum, o)
+			}
+			l.innov[cg.InnovationNum] = k
+			if cg.InnovationNum > l.hwInnov {
+				l.hwInnov = cg.InnovationNum
+			}
+			l.node[cg.ControlNode.Id] = cg.ControlNode.NeuronType
+			if cg.ControlNode.Id > l.hwNode {
+				l.hwNode = cg.ControlNode.Id
 			}
 		}
 	}
